@@ -245,8 +245,30 @@ fn partition(n: usize, pieces: &[Piece]) -> Vec<(usize, usize, bool, bool)> {
     plan
 }
 
+/// A sink that takes at most `limit` bytes per `write` call (always at least one): legal for
+/// `io::Write`, and what a pipe or a non-blocking descriptor does.
+struct ShortSink {
+    got: Vec<u8>,
+    limit: usize,
+}
+
+impl Write for ShortSink {
+    fn write(&mut self, buf: &[u8]) -> std::io::Result<usize> {
+        let n = buf.len().min(self.limit.max(1));
+        self.got.extend_from_slice(&buf[..n]);
+        Ok(n)
+    }
+    fn flush(&mut self) -> std::io::Result<()> {
+        Ok(())
+    }
+}
+
 fn run_encoder(data: &[u8], pieces: &[Piece]) -> EncodeRun {
-    let mut enc = Base64Encoder::new(Vec::new());
+    run_encoder_into(data, pieces, Vec::new(), |v| v)
+}
+
+fn run_encoder_into<W: Write>(data: &[u8], pieces: &[Piece], sink: W, take: impl Fn(W) -> Vec<u8>) -> EncodeRun {
+    let mut enc = Base64Encoder::new(sink);
     let mut run = EncodeRun {
         result: Ok(Vec::new()),
         nonempty_calls: 0,
@@ -264,7 +286,7 @@ fn run_encoder(data: &[u8], pieces: &[Piece]) -> EncodeRun {
             }
         }
     }
-    run.result = enc.finish().map_err(|e| format!("finish: {e}"));
+    run.result = enc.finish().map(take).map_err(|e| format!("finish: {e}"));
     run
 }
 
@@ -369,10 +391,41 @@ fn check_encode(data: &[u8], pieces: &[Piece]) -> Outcome {
         show(&got),
         show(&want)
     );
+    // the same writes into a sink that accepts only a few bytes per call (size derived from
+    // the case): what reaches the sink must be the same text
+    let limit = 1 + (data.len() * 7 + pieces.len() * 3) % 13;
+    let short = guard_val(|| run_encoder_into(data, pieces, ShortSink { got: Vec::new(), limit }, |s| s.got))?;
+    match (&short.contract, &short.result) {
+        (Some(c), _) => {
+            return Err(Fail::new(
+                format!("encode/write-contract/short-sink/{part}"),
+                format!("data {} pieces {:?} sink accepting {limit} bytes per call: {c}", hex(data), pieces),
+            ));
+        }
+        (None, Err(e)) => {
+            return Err(Fail::new(
+                format!("encode/io-error/short-sink/{part}"),
+                format!("data {} pieces {:?} sink accepting {limit} bytes per call (never fails): {e}", hex(data), pieces),
+            ));
+        }
+        (None, Ok(g)) => ensure!(
+            *g == want,
+            format!("encode/text-mismatch/short-sink/len%3={rem}/{part}"),
+            "data {} ({} bytes) written as {:?} into a sink accepting {limit} bytes per call: sink received {}, RFC 4648 = {}",
+            hex(data),
+            data.len(),
+            pieces,
+            show(g),
+            show(&want)
+        ),
+    }
     let one_byte = !pieces.is_empty() && pieces.iter().all(|p| p.len <= 1) && run.nonempty_calls > 1;
     let nontrivial = rem != 0 && data.len() > 48 && run.nonempty_calls >= 2;
+    // a single call of >= 768 bytes issued while 1-2 bytes of an earlier call are carried
+    let big_after_carry = partition(data.len(), pieces).iter().any(|(s, e, _, _)| e - s >= 768 && s % 3 != 0);
     Ok(Pass::new(nontrivial)
         .label("encode")
+        .label_if(big_after_carry, "encode/single-call>=768-after-carry")
         .label(format!("encode/len%3={rem}"))
         .label(format!("encode/{}", len_bucket(data.len())))
         .label(format!("encode/{part}"))
@@ -789,6 +842,8 @@ fn data(tier: Tier, nonempty: bool) -> BoxedStrategy<Vec<u8>> {
         2 => g(63, 65),
         3 => g(0, 100),
         1 => g(0, big),
+        // long enough for single writes far beyond the codec's internal buffers
+        1 => g(250, 700),
     ]
     .boxed()
 }
@@ -801,6 +856,8 @@ fn pieces() -> BoxedStrategy<Vec<Piece>> {
         2 => 5u16..=8,
         2 => 9u16..=70,
         1 => 71u16..=400,
+        // one call that carries hundreds of groups (after a short call has left a carry)
+        1 => 401u16..=2200,
     ];
     let piece = (plen, any::<bool>(), proptest::bool::weighted(0.08)).prop_map(|(len, all, flush)| Piece { len, all, flush });
     prop_oneof![
@@ -990,8 +1047,8 @@ impl Property for C14 {
     fn rule(&self) -> String {
         "sweep: RFC 4648 §10 vectors; every byte string of length 0..=2 (thorough: also every 3-byte string) encoded (one write, 1-byte writes) and decoded (filling reader, destination 1 and 80); \
          pseudo-random strings of every length 0..=400 (thorough 0..=1500) x write size {whole,0+1,1..=8,47..=49,63..=65} and x destination size 1..=80 (filling reader). \
-         generated: byte strings of length 0..=302 (thorough ..=5000), built from 3-byte groups + 0..=2 tail bytes, biased to 0..8, 45..53, 60..68, 93..101, 189..197; \
-         Encode: cyclic partition of write/write_all calls of sizes 0,1,2..4,5..8,9..70,71..400; \
+         generated: byte strings of length 0..=302 and (one in fifteen) 750..=2102 (thorough ..=5000), built from 3-byte groups + 0..=2 tail bytes, biased to 0..8, 45..53, 60..68, 93..101, 189..197; \
+         Encode: cyclic partition of write/write_all calls of sizes 0,1,2..4,5..8,9..70,71..400,401..2200 (label `encode/single-call>=768-after-carry`); \
          Decode: reference text through an own Read following a cyclic schedule of 1,2,3,4,5,6..64 bytes per call (never 0 before EOF; classes: fill, all-1-byte, all>=4, mixed) and destination sizes 1..=80 (cyclic list of 1..=6 sizes), each case also run with a filling reader; \
          Reject: reference text with 1..3 trailing characters removed or 1..3 alphabet/'=' characters appended; Arbitrary: alphabet-biased and uniform bytes, 0..=300. \
          non-trivial = Encode/Decode: length % 3 != 0 and length > 48 and (>= 2 non-empty writes | a short read was served or a destination buffer smaller than the payload); Reject: at least one complete group before the bad tail; Arbitrary: >= 4 bytes".into()
@@ -1000,7 +1057,7 @@ impl Property for C14 {
     fn assumptions(&self) -> Vec<String> {
         vec![
             "RFC 4648 §4 alphabet with '=' padding, no line breaks; reference = own bit-accumulator codec checked against the RFC §10 vectors".into(),
-            "the encoder's sink is a Vec<u8> (never fails, never writes short); a partial `write` result is completed by further `write` calls as the Write contract prescribes".into(),
+            "the encoder's sink is a Vec<u8> and, in a second run of every Encode case, a sink that accepts only 1-13 bytes per write call (never fails, never returns 0); a partial `write` result of the encoder is completed by further `write` calls as the Write contract prescribes".into(),
             "the underlying reader never returns Ok(0) before the end of the text, never errors and keeps returning Ok(0) at the end; fewer bytes than requested is a legal Read result".into(),
             "destination buffers are never empty (a read into an empty buffer returns Ok(0) by contract and says nothing)".into(),
             "rejection: an Err from any read call before the first Ok(0) counts as 'reports an error'; nothing is demanded of the bytes delivered before the error or of the decoder's state after it".into(),
